@@ -22,7 +22,7 @@ RULE = ("one execution = one (binding, message, RelayState, destination) package
         "reader and by Entity.unravel; non-trivial = both the independent reader and the library decoder ran on the packaged output; "
         "distinct = (binding, message kind, RelayState class, destination kind)")
 ASSUMPTIONS = ["html.parser.HTMLParser stands for 'a standards-conforming HTML parser' (no newline normalisation of attribute values)",
-               "redirect signing is covered by C15, not here"]
+               "what a redirect signature binds is C15; here only which parameters a signed URL carries"]
 
 from saml2_tophat import BINDING_HTTP_POST, BINDING_HTTP_REDIRECT, BINDING_SOAP, BINDING_PAOS, BINDING_HTTP_ARTIFACT  # noqa: E402
 
@@ -99,7 +99,7 @@ def gen_cases(tier, seed):
     rng = random.Random(seed)
     cases = []
     n_extra = 2 if tier == "quick" else 30
-    for binding in ("post", "redirect", "soap", "paos", "artifact"):
+    for binding in ("post", "redirect", "redirect-signed", "soap", "paos", "artifact"):
         for mk in range(13):   # index into ctx.msgs (4 requests + 9 responses)
             for rclass, vals in sorted(RELAY_CLASSES.items()):
                 if binding in ("soap", "paos") and rclass != "empty":
@@ -211,8 +211,14 @@ def _run_case(case, ctx):
             counters["library_decodes"] = 1
             if back != msg_bytes:
                 bad("post-roundtrip-not-byte-identical", "unravel returned %r" % back[:80])
-    elif binding == "redirect":
-        info = ent.apply_binding(BINDING_HTTP_REDIRECT, msg, dest, relay, response=is_resp)
+    elif binding in ("redirect", "redirect-signed"):
+        signed_q = binding == "redirect-signed"
+        if signed_q:
+            # query-string signing: two more parameters, nothing else - whatever was packaged before in this process
+            info = ent.apply_binding(BINDING_HTTP_REDIRECT, msg, dest, relay, response=is_resp, sign=True,
+                                     sigalg="http://www.w3.org/2001/04/xmldsig-more#rsa-sha256")
+        else:
+            info = ent.apply_binding(BINDING_HTTP_REDIRECT, msg, dest, relay, response=is_resp)
         loc = dict(info["headers"]).get("Location")
         parts = up.urlsplit(loc)
         dparts = up.urlsplit(dest)
@@ -225,7 +231,7 @@ def _run_case(case, ctx):
             bad("redirect-existing-query-altered", "query %r, destination had %r" % (q[:len(dq) + 1], dq))
         rest = q[len(dq):]
         names = [n for n, v in rest]
-        want_names = [typ] + (["RelayState"] if relay else [])
+        want_names = [typ] + (["RelayState"] if relay else []) + (["SigAlg", "Signature"] if signed_q else [])
         if sorted(names) != sorted(want_names):
             bad("redirect-parameter-created-or-lost", "parameters %r, expected %r" % (names, want_names))
         else:
